@@ -1,7 +1,10 @@
 import RedisGoModel.Driver.Util
-import RedisGoModel.Resp.Resp
-/-! parser engine: `P <stream> <chunk-mode> <events>`; the model consumes the complete stream (chunk independence is
-    definitional in the model, so every chunking of the same stream must give the same event list). -/
+import RedisGoModel.Resp.Chunked
+/-! parser engine: `P <stream> <chunk-mode> <events>`; the verdict is the whole-stream model `parseLoop`.  Chunk independence is
+    a theorem about the chunked reader of `Resp/Chunked.lean` (`C02.fragmentation_independent`: `runChunks chunks = parseLoop St.init
+    chunks.flatten` for every list of chunks); the engine also RUNS that reader (`feed` per chunk, `finish`) on the very chunk
+    boundaries the harness's reader handed to `bufio` (field `k=<sizes>`, run-length encoded; lines without it — old corpus — are
+    cut whole / byte by byte / pseudo-randomly by mode) and refuses the line if the compiled reader disagrees. -/
 namespace Driver
 open Resp
 
@@ -31,14 +34,50 @@ def renderEvent : Event → String
 def hasArrayCmd (evs : List Event) : Bool :=
   evs.any fun e => match e with | .data (.arr (some (_ :: _))) => true | _ => false
 
+/-- cut `s` into chunks of pseudo-random sizes 1, 1-3, 1-64, 1-5000 (the size classes of harness/parser.go), LCG seeded by the mode -/
+def cutLoop : Nat → Nat → Bytes → List Bytes
+| 0, _, s => if s.isEmpty then [] else [s]
+| fuel + 1, seed, s =>
+  if s.isEmpty then [] else
+  let seed' := (seed * 1103515245 + 12345) % 2147483648
+  let r := seed' / 65536
+  let k := 1 + (r / 4) % (if r % 4 == 0 then 1 else if r % 4 == 1 then 3 else if r % 4 == 2 then 64 else 5000)
+  s.take k :: cutLoop fuel seed' (s.drop k)
+
+def chunksFor (mode : String) (s : Bytes) : List Bytes :=
+  if mode == "0" then [s]
+  else if mode == "1" && s.length ≤ 1200 then s.map fun b => [b]
+  else cutLoop s.length (mode.toNat?.getD 7) s
+
+/-- `k=3,1x40,7` -> [3, 1 (40 times), 7] -/
+def parseSizes (k : String) : List Nat :=
+  (((k.drop 2).toString.splitOn ",").map fun it =>
+    match it.splitOn "x" with
+    | [a, n] => List.replicate (n.toNat?.getD 0) (a.toNat?.getD 0)
+    | [a] => [a.toNat?.getD 0]
+    | _ => []).flatten
+
+/-- cut `s` at the given sizes (zero sizes skipped); whatever is left over is one last chunk -/
+def cutBy : List Nat → Bytes → List Bytes
+| [], s => if s.isEmpty then [] else [s]
+| k :: ks, s => if k == 0 then cutBy ks s else if s.isEmpty then [] else s.take k :: cutBy ks (s.drop k)
+
+def parserVerdict (s : Bytes) (chunks : List Bytes) (obs : String) : Except String Bool :=
+  let evs := parseLoop St.init s
+  let e := ",".intercalate (evs.map renderEvent)
+  let e2 := ",".intercalate ((runChunks chunks).map renderEvent)
+  if e2 != e then .error s!"MODEL: chunked reader disagrees with the whole-stream parser (contradicts C02.fragmentation_independent): chunked={e2} whole={e}"
+  else if e == obs then .ok (hasArrayCmd evs) else .error s!"expected={e} got={obs}"
+
 def parserLine (fs : List String) : Option (Except String Bool) :=
   match fs with
-  | ["P", s, _mode, obs] =>
+  | ["P", s, _mode, ks, obs] =>
     match unhex s with
-    | some s =>
-      let evs := parseLoop St.init s
-      let e := ",".intercalate (evs.map renderEvent)
-      some (if e == obs then .ok (hasArrayCmd evs) else .error s!"expected={e} got={obs}")
+    | some s => some (if ks.startsWith "k=" then parserVerdict s (cutBy (parseSizes ks) s) obs else .error "bad chunk field")
+    | none => some (.error "bad-hex")
+  | ["P", s, mode, obs] =>
+    match unhex s with
+    | some s => some (parserVerdict s (chunksFor mode s) obs)
     | none => some (.error "bad-hex")
   | _ => none
 
